@@ -21,6 +21,11 @@ pub struct Workload {
 	pub always_flush: bool,
 	/// request shutdown right after the last commit returned (no waiting for the pipeline)
 	pub shutdown_early: bool,
+	/// a further client that walks the column with `iter_column_while` (rounds, scheduling
+	/// points per visited value): the walk holds the lock that applying a log record needs, so
+	/// the commit worker falls behind the flush worker while it lasts
+	#[serde(default)]
+	pub iter: (u8, u8),
 }
 
 /// size classes: the last one is 1 MiB (17 of them exceed the 16 MiB queue limit)
@@ -48,7 +53,13 @@ pub fn workload(big: bool) -> impl Strategy<Value = Workload> {
 	];
 	let n_tx = if big { 6..14usize } else { 2..10usize };
 	let client = proptest::collection::vec(tx, n_tx);
-	(proptest::collection::vec(client, 1..=3), any::<bool>(), any::<bool>()).prop_map(|(clients, always_flush, shutdown_early)| Workload { clients, always_flush, shutdown_early })
+	(
+		proptest::collection::vec(client, 1..=3),
+		prop_oneof![1 => Just(false), 2 => Just(true)],
+		any::<bool>(),
+		prop_oneof![2 => Just((0u8, 0u8)), 1 => (1u8..4, 1u8..40)],
+	)
+		.prop_map(|(clients, always_flush, shutdown_early, iter)| Workload { clients, always_flush, shutdown_early, iter })
 }
 
 fn options(dir: &Path, wl: &Workload, background: bool) -> Options {
@@ -64,7 +75,14 @@ fn options(dir: &Path, wl: &Workload, background: bool) -> Options {
 pub fn execute(wl: Arc<Workload>, base: &Path) {
 	EXECUTIONS.fetch_add(1, Ordering::SeqCst);
 	let dir = fresh_dir(base);
-	drop(Db::open_or_create(&options(&dir, &wl, false)).expect("create"));
+	{
+		let db = Db::open_or_create(&options(&dir, &wl, false)).expect("create");
+		if wl.iter.0 > 0 {
+			// something to walk over
+			db.commit((0..6u16).map(|k| (0u8, key(9, k), Some(value(k, 1, 9, 0))))).expect("populate");
+		}
+		drop(db);
+	}
 	// read-only opening mode starts no std threads but keeps the queue-full throttles of
 	// commit / process_commits active (with_background_thread = true); the four real worker
 	// loops run on shuttle threads through the verif hook
@@ -90,6 +108,24 @@ pub fn execute(wl: Arc<Workload>, base: &Path) {
 				if let Err(e) = db.commit(items) {
 					violation("commit-failed", format!("client {c} transaction {t}: {e}"));
 				}
+			}
+		}));
+	}
+	if wl.iter.0 > 0 {
+		let db = db.clone();
+		let (rounds, yields) = wl.iter;
+		clients.push(thread::spawn(move || {
+			for _ in 0..rounds {
+				let r = db.iter_column_while(0, |_| {
+					for _ in 0..yields {
+						thread::yield_now();
+					}
+					true
+				});
+				if let Err(e) = r {
+					violation("iteration-failed", format!("iter_column_while: {e}"));
+				}
+				thread::yield_now();
 			}
 		}));
 	}
